@@ -78,6 +78,10 @@ func (o *Operations) Delete(name string) error {
 		}
 
 		hdr.Size = 0 // Don't try to seek after the record
+
+		// The entry may come from a ustar or GNU archive, whose format can't carry the STFS records
+		hdr.Format = tar.FormatPAX
+
 		hdr.PAXRecords[records.STFSRecordVersion] = records.STFSRecordVersion1
 		hdr.PAXRecords[records.STFSRecordAction] = records.STFSRecordActionDelete
 
